@@ -233,6 +233,26 @@ def resolve_bad(root: Any, other: Any, op: dict) -> Bad:
             b.what = f'{type(P).__name__}.meta.pop({key!r})'
             b.call = lambda: P.meta.pop(key)
         return b
+    if k == 'values-attached':
+        P = OPS.find_model(root, 'Custom', op['mi'], idx)
+        node = _find_attached(other if op.get('src_other') else root, ['ACCOUNT', 'amount', 'ESCAPED_STRING', 'DATE'], op.get('sel', 0))
+        w = P.values
+        n = len(w)
+        name = op.get('op', 'setslice')
+        b.cls, b.must_raise, b.key = 'a:attached', True, f'attached:values-view:{name}:{"token" if isinstance(node, base.RawTokenModel) else "tree"}'
+        b.what = f'Custom.values {name} with ["yearly", attached {type(node).__name__}]'
+        b.nontrivial = n > 0
+        if name == 'setslice':
+            if n < 2:
+                raise OPS.NotApplicable('needs two values')
+            b.call = lambda: w.__setitem__(slice(0, 2), ['yearly', node])
+        elif name == 'extend':
+            b.call = lambda: w.extend(['yearly', node])
+        else:
+            if n < 3:
+                raise OPS.NotApplicable('needs three values')
+            b.call = lambda: w.__setitem__(slice(0, 3, 2), ['yearly', node])
+        return b
     if k == 'meta-update':
         # mapping.update with an attached node as a later value: refused, and the keys in front of it are not applied
         P = OPS.find_model(root, op['cls'], op['mi'], idx)
@@ -636,6 +656,8 @@ def _gen_bad(g: L.G, root: Any) -> Optional[dict]:
         if dst.get('op') == 'mapset':
             op['key'] = g.meta_key()[1][:-1]
         return op
+    if x == 5 and g.p(0.25) and idx.get('Custom'):
+        return {'f': 'bad', 'k': 'values-attached', 'mi': g.n(0, len(idx['Custom']) - 1), 'op': g.pick(['setslice', 'extend', 'setext']), 'sel': g.n(0, 50), 'src_other': g.p(0.5)}
     if x == 5 and g.p(0.3):
         return {'f': 'bad', 'k': 'ctor-later-attached', 'sel': g.n(0, 50), 'src_other': g.p(0.5), 'num': g.pick(['7', '1 + 2', '-3', '(4)'])}
     if x == 5 and g.p(0.15):
@@ -737,6 +759,9 @@ def _enum_custom_ctor():
     for via, cls in (('values', 'Custom'), ('meta', 'Custom'), ('meta', 'Close')):
         for sel in range(2):
             yield {'dirs': doc0, 'dirs2': doc, 'ops': [{'f': 'bad', 'k': 'pop-unevaluable', 'via': via, 'cls': cls, 'mi': 0, 'sel': sel}]}
+    doc1 = [[['X', '2000-01-01 custom "a" "weekly" Assets:Foo 3 USD TRUE\n2000-01-02 custom "b" Assets:Bar "x" 2000-01-01 5 EUR\n']]]
+    for name, sel, src_other in itertools.product(('setslice', 'extend', 'setext'), range(10), (False, True)):
+        yield {'dirs': doc1, 'dirs2': doc1, 'ops': [{'f': 'bad', 'k': 'values-attached', 'mi': 0, 'op': name, 'sel': sel, 'src_other': src_other}]}
     for which in range(3):
         yield {'dirs': doc, 'dirs2': doc, 'ops': [{'f': 'bad', 'k': 'ctor-duplicate', 'which': which}]}
     for cls, sel, src_other in itertools.product(('Custom', 'Balance'), range(4), (False, True)):
